@@ -339,6 +339,15 @@ TIE_NOTE = ("  The translator harness/py2coq.py (rendering of the Python subset,
             "reported like one.")
 
 
+# properties whose anchored functions are tied in another property's tie file
+TIES["C08"] = ("Props/C02Tie.v", 17, "the functions C08 is about — Deb822.validate_input, __setitem__, the reader "
+               "(_skip_useless_lines, split_gpg_and_payload, _internal_parser) and the writer (_dump_format, _dump_str) — "
+               "shared with C02", "as for C02")
+TIES["C19"] = ("Props/C18Tie.v", 5, "patches_from_ed_script and patch_lines, through which update_file applies every "
+               "patch — shared with C18 (update_file itself, its I/O and fault handling are not regenerated)",
+               "as for C18")
+
+
 def main():
     for pid, (f, n, funs, prims) in TIES.items():
         c = CHECKS[pid]
